@@ -1,6 +1,7 @@
 import VizierModel.Driver.Util
 import VizierModel.Model.Namespace
 import VizierModel.Model.Meta
+import VizierModel.Model.MetadataApi
 open Lean VizierModel.Driver VizierModel
 
 def keyLt := Meta.keyLt
@@ -68,9 +69,46 @@ def runHistory (atomic : Bool) (ops : List Json) : Except String Json := do
     else throw s!"bad op {kind}"
   return Json.mkObj [("outs", toJson outs), ("store", storeJson s)]
 
+/-- {"op":"mdapi","ops":[…]}: a sequence of Metadata-class calls on up to three trees ("m0","m1","m2").
+    set/del/update/attach mutate; get/keys/len/namespaces/subnamespaces read.  Namespaces are lists. -/
+def mdApi (j : Json) : Except String Json := do
+  let ops ← getArr j "ops"
+  let mut trees : Array MetadataApi.Tree := #[.empty, .empty, .empty]
+  let mut outs : Array Json := #[]
+  let nsOf (o : Json) (f : String) : Except String (List String) := do
+    let a ← fromJson? (α := Array String) (← o.getObjVal? f)
+    pure a.toList
+  for o in ops do
+    let kind ← getStr o "op"
+    let ti ← getNat o "m"
+    let t : MetadataApi.Tree := trees[ti]!
+    match kind with
+    | "set" =>
+      trees := trees.set! ti (t.set (← nsOf o "ns") (← getStr o "k") (← getStr o "v")); outs := outs.push "ok"
+    | "del" =>
+      match t.del (← nsOf o "ns") (← getStr o "k") with
+      | some t' => trees := trees.set! ti t'; outs := outs.push "ok"
+      | none => outs := outs.push "KeyError"
+    | "update" =>
+      let kvs ← (← getArr o "kvs").toList.mapM fun (x : Json) => do
+        let a ← fromJson? (α := Array String) x
+        pure (a[0]!, a[1]!)
+      trees := trees.set! ti (t.update (← nsOf o "ns") kvs); outs := outs.push "ok"
+    | "attach" =>
+      let oi ← getNat o "other"
+      trees := trees.set! ti (t.attach (← nsOf o "ns") trees[oi]! (← nsOf o "src")); outs := outs.push "ok"
+    | "get" =>
+      outs := outs.push (match t.get (← nsOf o "ns") (← getStr o "k") with | some v => Json.str v | none => Json.null)
+    | "keys" => outs := outs.push (toJson (t.keys (← nsOf o "ns")).toArray)
+    | "namespaces" => outs := outs.push (toJson (t.namespaces.map (·.toArray)).toArray)
+    | "subnamespaces" => outs := outs.push (toJson ((t.subnamespaces (← nsOf o "ns")).map (·.toArray)).toArray)
+    | _ => throw s!"bad mdapi op {kind}"
+  return Json.mkObj [("outs", toJson outs)]
+
 def handle (j : Json) : Except String Json := do
   let op ← getStr j "op"
   match op with
+  | "mdapi" => mdApi j
   | "encode" =>
     let ns ← (← getArr j "ns").toList.mapM charsOfJson
     return Json.mkObj [("enc", jsonOfChars (NS.encode ns)), ("trailingBS", toJson (NS.trailingBS ns))]
